@@ -131,6 +131,8 @@ def run_property(prop, tier="quick", repo="/repo", seed=0, update_baseline=False
         if o["error"]:
             errors.append((o["unit"], o["error"]))
         for r in o["results"]:
+            if not VC.in_scope(r[0], prop):
+                continue        # clause scoped to another property (Contract.scope)
             by_name.setdefault(r[0], []).append(r)
             unit_of[r[0]] = o["unit"]
         functions.update(o["functions"])
@@ -254,8 +256,8 @@ def run_property(prop, tier="quick", repo="/repo", seed=0, update_baseline=False
         undecided += 1
     for o in outs:
         if o["kind"] == "contract":
-            k = o["unit"] + "/cover.pre"
-            if not covers.get(k, False) and not any(t.startswith("contract of %s assumed" % o["unit"].split('#')[0])
+            k = o["unit"].split('@')[0] + "/cover.pre"      # split units share their contract's covers
+            if not covers.get(k, False) and not any(t.startswith("contract of %s assumed" % o["unit"].split('@')[0].split('#')[0])
                                                      for t in trusted):
                 lines.append("UNDECIDED property=%s obligation=%s reason=precondition-unreachable (vacuous contract)"
                              % (prop, k))
@@ -356,7 +358,10 @@ def _safe(s):
 
 # ------------------------------------------------------------------ unit helpers
 
-def contract_units(prop, modules, ctx, max_paths=6000, weight=None):
+def contract_units(prop, modules, ctx, max_paths=6000, weight=None, slices=None):
+    """slices: {choice label: [indices]} restricts the split units of contracts with `split_by` to
+    part of the product (used by properties for which the other slices add nothing in the quick
+    tier; the property that owns the contract explores the whole product)."""
     from . import contracts as VC, modular
     for m in modules:
         importlib.import_module(m)
@@ -369,7 +374,25 @@ def contract_units(prop, modules, ctx, max_paths=6000, weight=None):
         kn = [(e["obligation"], e.get("witness"), e["id"]) for e in known
               if e["obligation"].startswith(key + "/")]
 
+        split = getattr(c, 'split_by', None)
+        if split:
+            # one unit per combination of the named top-level choices (explored in parallel)
+            import itertools
+            for combo in itertools.product(*[[k for k in range(n) if not slices or lab not in slices
+                                              or k in slices[lab]] for lab, n in split]):
+                force = {lab: k for (lab, _), k in zip(split, combo)}
+
+                def fn(sess, c=c, kn=kn, force=force):
+                    sess.force = force
+                    modular.prove_contract(sess, c, max_paths=getattr(c, 'max_paths', None) or max_paths,
+                                           known=kn)
+                uname = key + "@" + ",".join("%s=%d" % (lab, k) for lab, k in sorted(force.items()))
+                units.append(Unit(uname, fn, "contract", contract=c, weight=weight.get(key, 1),
+                                  bounded=bool(getattr(c, 'bounded_note', None))))
+            continue
+
         def fn(sess, c=c, kn=kn):
-            modular.prove_contract(sess, c, max_paths=max_paths, known=kn)
-        units.append(Unit(key, fn, "contract", contract=c, weight=weight.get(key, 1)))
+            modular.prove_contract(sess, c, max_paths=getattr(c, 'max_paths', None) or max_paths, known=kn)
+        units.append(Unit(key, fn, "contract", contract=c, weight=weight.get(key, 1),
+                          bounded=bool(getattr(c, 'bounded_note', None))))
     return units
